@@ -204,6 +204,21 @@ pub fn find_op<'a>(ops: &'a [Op], name: &str) -> Option<&'a Op> {
     ops.iter().find(|o| o.name == name)
 }
 
+/// the difference of two Oracle-style dates in days: the exact microsecond difference over
+/// 86_400_000_000, to double precision, and antisymmetric
+pub fn check_ora_diff(a: i128, b: i128) -> Result<(), String> {
+    let (r, q) = guarded(|| (ad::ora(a as i64).sub_date(ad::ora(b as i64)), ad::ora(b as i64).sub_date(ad::ora(a as i64))))?;
+    let exact = a - b;
+    let tol = exact.abs() as f64 * f64::EPSILON * 2.0 + 0.5;
+    if !r.is_finite() || (r * US_PER_DAY as f64 - exact as f64).abs() > tol {
+        return Err(format!("OracleDate({a}).sub_date(OracleDate({b})) = {r} days, the exact difference is {exact} us = {} days", exact as f64 / US_PER_DAY as f64));
+    }
+    if q != -r {
+        return Err(format!("OracleDate difference is not antisymmetric: a-b = {r}, b-a = {q} (a = {a}, b = {b})"));
+    }
+    Ok(())
+}
+
 pub fn eval(case: &Case) -> Verdict {
     let r: Result<(), String> = match case.kind.as_str() {
         "linear" => {
@@ -224,6 +239,7 @@ pub fn eval(case: &Case) -> Verdict {
         "add_days" => check_add_days(case.i[0], i2f(case.i[1]), case.i[2] != 0).map(|_| ()),
         "ora_add_days" => super::c16::check_add_days(case.i[0] as u8, case.i[1], i2f(case.i[2])).map(|_| ()),
         "ora_add_dt" => super::c16::check_add_dt(case.i[0], case.i[1], case.i[2] != 0),
+        "ora_diff" => check_ora_diff(case.i[0], case.i[1]),
         k => Err(format!("unknown case kind {k}")),
     };
     match r {
@@ -415,6 +431,30 @@ pub fn run(ctx: &Ctx) -> (Stats, Report) {
         }
     });
     st.merge(s);
+    // the difference of two Oracle-style dates (a number of days): every pool pair, and for every
+    // pair the second operand moved to the first one's time of day (whole-day differences)
+    let orad = pools::ora_pool_small(seed, if ctx.thorough { 400 } else { 120 });
+    let s = par_sweep((orad.len() * orad.len()) as u64, 4096, |range, st| {
+        for k in range {
+            let (a, b) = (orad[k as usize / orad.len()], orad[k as usize % orad.len()]);
+            let b2 = b - b.rem_euclid(US_PER_DAY) + a.rem_euclid(US_PER_DAY);
+            for (y, same_tod) in [(b, false), (b2, true)] {
+                if !ts_in_range(y) {
+                    continue;
+                }
+                st.evaluations += 1;
+                st.fps.push(hash_ints(0x0d1f, &[a, y]));
+                if same_tod && a.rem_euclid(US_PER_DAY) != 0 {
+                    st.class(if (a < 0) != (y < 0) { "oracle-difference-equal-time-of-day-across-1970" } else { "oracle-difference-equal-time-of-day" });
+                }
+                if let Err(m) = check_ora_diff(a, y) {
+                    st.fail(k, Case::new(P, "ora_diff", vec![a, y], vec![]), m);
+                    return;
+                }
+            }
+        }
+    });
+    st.merge(s);
     st.section("inversion_laws", &mut mark);
 
     // add_days / sub_days: pool cross product
@@ -513,7 +553,7 @@ pub fn run(ctx: &Ctx) -> (Stats, Report) {
     st.section("add_days_random", &mut mark);
 
     let rep = Report {
-        rule: "Every linear operation of the operation table (37 rows: add/sub of days, times, day-time intervals, same-kind intervals, differences, raw-count constructors) x full cross products of boundary+seeded pools (E1), plus proptest-generated operands per row with shrinking (E2); judged against i128 arithmetic on the raw counts with the biconditional Ok <=> exact result in range. Inversion laws x+i-i=x, (x+i)-x=i, a-b=-(b-a) through the library. Timestamp::add_days/sub_days against exact dyadic-rational arithmetic: the result offset must be an integer n with |n - days*86400e6| <= 1/2 + |days*86400e6|*2^-53, a single value when the product is exactly representable. Non-trivial = exact result within one unit period of a range edge, an error outcome, a fractional-day offset, or all operands from the boundary pool; distinct by fingerprint of (row, operands).".into(),
+        rule: "Every linear operation of the operation table (37 rows: add/sub of days, times, day-time intervals, same-kind intervals, differences, raw-count constructors) x full cross products of boundary+seeded pools (E1), plus proptest-generated operands per row with shrinking (E2); the difference of two Oracle-style dates in days over all pool pairs, each also with the second operand moved to the first one's time of day; judged against i128 arithmetic on the raw counts with the biconditional Ok <=> exact result in range. Inversion laws x+i-i=x, (x+i)-x=i, a-b=-(b-a) through the library. Timestamp::add_days/sub_days against exact dyadic-rational arithmetic: the result offset must be an integer n with |n - days*86400e6| <= 1/2 + |days*86400e6|*2^-53, a single value when the product is exactly representable. Non-trivial = exact result within one unit period of a range edge, an error outcome, a fractional-day offset, or all operands from the boundary pool; distinct by fingerprint of (row, operands).".into(),
         assumptions: vec![
             "error kinds of the linear operations are not constrained by the statement: any Err is accepted when the exact result is out of range".into(),
             "add_days: NaN / infinite / overflowing offsets must be an error of any kind; ties and inexact double products admit both neighbouring microseconds".into(),
